@@ -41,6 +41,18 @@ def content_field_writes(F, field):
     return out
 
 
+def owner_qname(F, b):
+    """the function a write belongs to: a closure (`res.map(|val| mem::replace(&mut val.aff, aff))`) writes on behalf of the function it is in"""
+    for _ in range(4):
+        if b.kind != 'Closure':
+            break
+        p = F.by_path.get(b.parent)
+        if p is None:
+            break
+        b = p
+    return b.qname
+
+
 def node_of(e):
     """index expression of the node whose content is accessed by e (…node_value_mut(tree, idx).field / tree_node_mut(tree, idx).value.field)."""
     for x in walk(e):
@@ -170,7 +182,7 @@ def r3(ctx):
     writers = content_field_writes(F, 'aff')
     bodies = {}
     for w in writers:
-        bodies.setdefault(w[0].qname, []).append(w)
+        bodies.setdefault(owner_qname(F, w[0]), []).append(w)
     for q, ws in sorted(bodies.items()):
         b = ws[0][0]
         site = '%s#write:AffContent.aff' % q
